@@ -6,10 +6,20 @@ Import ListNotations.
 Local Open Scope nat_scope.
 
 (* A session as StreamContext.reset()/RtspSession create it: positive frame size and latency
-   (latency = 22050 + sample rate), 16-bit start sequence number, 32-bit session id, a backlog
+   (latency = 22050 + sample rate), a plain (unencrypted) protocol object, 16-bit start sequence number, 32-bit session id, a backlog
    limit between 1 and 65535 (pyatv: 1000), transport not closing. *)
+(* The protocol object puts header ++ audio on the wire and returns the same bytes: AirPlayV1, and
+   AirPlayV2 when no audio cipher is set. *)
+Definition plain_protocol (send : nat -> bytes -> bytes -> bytes * bytes) : Prop :=
+  forall n h a, send n h a = (h ++ a, h ++ a).
+
+(* The obligation on ANY protocol object for retransmission to be byte-identical: the packet it
+   returns (which StreamClient stores in the backlog) is the datagram it handed to the transport. *)
+Definition returns_what_it_sent (send : nat -> bytes -> bytes -> bytes * bytes) : Prop :=
+  forall n h a, snd (send n h a) = fst (send n h a).
+
 Definition wf_cfg (c : cfg) (seq0 : N) : Prop :=
-  0 < c_fs c /\ (0 < c_latency c)%N /\ 1 <= c_lim c /\ (N.of_nat (c_lim c) < SEQMOD)%N /\
+  plain_protocol (c_send c) /\ 0 < c_fs c /\ (0 < c_latency c)%N /\ 1 <= c_lim c /\ (N.of_nat (c_lim c) < SEQMOD)%N /\
   (seq0 < SEQMOD)%N /\ (c_ssrc c < TSLIM)%N /\ c_close c = None.
 
 Definition no_stop (sched : list lap) : Prop := Forall (fun l => l_stop l = false) sched.
